@@ -97,7 +97,12 @@ func runOne(id string, r rules.Entry, tier, repo, verif string, ov map[string][]
 			code = 2
 		}
 	}()
-	prog, err := core.Load(core.LoadConfig{RepoDir: repo, Overlay: ov, Tests: false})
+	lc := core.LoadConfig{RepoDir: repo, Overlay: ov, Tests: false}
+	if tier == "thorough" && r.Examples {
+		// the examples module is a separate Go module with its own committed generated file
+		lc.Extra = []core.ExtraLoad{{Dir: filepath.Join(repo, "examples"), Patterns: []string{"./storage/proto"}}}
+	}
+	prog, err := core.Load(lc)
 	if err != nil {
 		fmt.Printf("UNDECIDED property=%s load failure: %v\n", id, err)
 		return 2
